@@ -39,6 +39,8 @@ type Gen struct {
 	autoDump bool
 	forceVariant int   // >= 0: the variant every pickv() of the current matrix case must take (deterministic sweeps)
 	simRate  float64 // share of transactions that are simulated (on a discarded branch) right before being delivered
+	batchRate float64 // share of transactions that open a multi-message transaction (the next 1..4 transactions share a branch)
+	batchLeft int     // messages still to go into the open multi-message transaction
 	capture  *[]Op // when set, ops are collected instead of executed (used by the crash scenario)
 	stats    map[string]int
 }
@@ -86,6 +88,14 @@ func (g *Gen) emit(op Op) string {
 		}
 		return ""
 	}
+	if g.batchLeft > 0 {
+		switch op.Kind {
+		case "tx", "sim", "query", "dump", "begin", "end":
+		default:
+			// anything that is not part of a transaction closes the open one first
+			g.endBatch()
+		}
+	}
 	line := op.String()
 	// the op is on disk BEFORE it runs: if the implementation takes the whole process down (a fatal runtime error is
 	// not recoverable), the last line of the op file is the one that did it
@@ -119,9 +129,45 @@ func (g *Gen) emit(op Op) string {
 	return o
 }
 
+// beginBatch opens a multi-message transaction for the next n transactions (g.tx closes it after the n-th).
+func (g *Gen) beginBatch(n int) {
+	if g.capture != nil || g.batchLeft > 0 || n <= 0 {
+		return
+	}
+	g.emit(Op{Kind: "begin", KV: newKV()})
+	g.batchLeft = n
+}
+
+// endBatch closes the open multi-message transaction now; returns the observation of `end`.
+func (g *Gen) endBatch() string {
+	if g.batchLeft <= 0 {
+		return ""
+	}
+	g.batchLeft = 0
+	o := g.emit(Op{Kind: "end", KV: newKV()})
+	if g.autoDump {
+		g.emit(Op{Kind: "dump", KV: newKV()})
+	}
+	return o
+}
+
 func (g *Gen) tx(ty string, kv *KV) string {
 	if kv.get("faults") == "" {
 		kv.set("faults", "-")
+	}
+	if g.batchLeft == 0 && g.batchRate > 0 && g.chance(g.batchRate) {
+		g.beginBatch(1 + g.pick(4))
+	}
+	if g.batchLeft > 0 {
+		defer func() {
+			if g.batchLeft > 0 {
+				g.batchLeft--
+				if g.batchLeft == 0 {
+					g.batchLeft = 1
+					g.endBatch()
+				}
+			}
+		}()
 	}
 	if g.simRate > 0 && g.chance(g.simRate) {
 		// the same message simulated first (as every wallet does to estimate gas): the branch is discarded, so the
